@@ -2,7 +2,7 @@
    model side of the correspondence lives here (in Gallina); the OCaml driver is generic. *)
 From Coq Require Import Strings.String.
 From ZipV Require Import Base.Bytes Base.Outcome Gen.GenLib Gen.TypesGen Model.Dos Extract.Obs.
-From ZipV Require Import Spec.PathSpec Model.Path.
+From ZipV Require Import Spec.PathSpec Model.Path Spec.Utf8 Model.Cp437.
 Open Scope N_scope.
 Open Scope string_scope.
 
@@ -42,9 +42,20 @@ Definition dispatch_path (op : bytes) (args : list arg) : option obs :=
     | _ => None end
   else None.
 
+Definition dispatch_text (op : bytes) (args : list arg) : option obs :=
+  if is_op op "text" then
+    match args with
+    | [AN flag; AB raw] => let f := negb (N.eqb flag 0%N) in Some (OL [OB (decode_text f raw); OB raw])
+    | _ => None end
+  else if is_op op "wname" then
+    match args with
+    | [AB n] => Some (OL [obool (name_flag n); OB (decode_text (name_flag n) n); OB n])
+    | _ => None end
+  else None.
+
 Definition first_some (l : list (option obs)) : obs :=
   match flat_map (fun o => match o with Some x => [x] | None => [] end) l with
   | x :: _ => x | [] => T "BADOP" end.
 
 Definition dispatch (op : bytes) (args : list arg) : obs :=
-  first_some [dispatch_dos op args; dispatch_path op args].
+  first_some [dispatch_dos op args; dispatch_path op args; dispatch_text op args].
